@@ -81,6 +81,13 @@ def safe_magnitude(e, vars_):
     return walk(e)
 
 
+def walk_expr(e):
+    yield e
+    if isinstance(e, Not): yield from walk_expr(e.e)
+    elif isinstance(e, Bin):
+        yield from walk_expr(e.l); yield from walk_expr(e.r)
+
+
 def mk_case(g, e, vars_, fam):
     pre = ''.join(f'VAR {k} {v}\n' for k, v in vars_.items())
     text = layout(g, e)
@@ -121,6 +128,41 @@ def generate(g, tier):
             e = [Bin('+', Lit('n='), w), Bin('+', w, Lit('=n')), Bin('^', Bin('^', Lit(3), w), Lit(30)), Bin('+', Bin('+', Lit('a'), w), w),
                  Bin('==', Bin('+', Lit(''), w), Bin('+', Lit(''), Lit(int(eval_expr(w, None))))), Bin('*', w, Lit(10 ** 17 + 1))][ctx]
             cases.append(mk_case(g, e, {}, 'whole'))
+    # variables contribute their CURRENT value: the very same expression text evaluated again after its variables changed
+    # (between statements, across loop iterations, across function calls), variables inside parentheses and `!( )` included
+    for _ in range(count(tier, 150, 1500)):
+        names = r.choice([['n'], ['a', 'ab'], ['_', 'x'], ['count1', 'count'], ['_1'], ['v', 'v1', 'v12']])
+        vs = {k: r.randint(0, 9) for k in names}
+        shape = r.choice(['paren', 'plain', 'not', 'concat', 'cmp'])
+        k0 = names[0]
+        e = {'paren': Bin('*', Bin('+', Var(k0), Lit(1)), Lit(2)), 'plain': gen_num(g, vs, 2, False), 'not': Not(Bin('>', Var(k0), Lit(4))),
+             'concat': Bin('+', Lit('v='), Bin('+', Var(k0), Lit(1))), 'cmp': Bin('<', Var(k0), Lit(5))}[shape]
+        if shape == 'plain' and not any(isinstance(x, Var) for x in walk_expr(e)): e = Bin('+', e, Var(k0))
+        if not safe_magnitude(e, vs): continue
+        text = layout(g, e)
+        if shape in ('paren', 'concat') and g.chance(0.5): text = text.replace(k0, f'({k0})', 1) if f'({k0})' not in text else text
+        vals = [dict(vs)]
+        for _k in range(r.randint(1, 3)):
+            nv = dict(vals[-1]); nv[r.choice(names)] = r.randint(10, 60); vals.append(nv)
+        how = r.choice(['seq', 'loop', 'func'])
+        lines, exp = [], []
+        def ev(env):
+            try: return py_str(norm(eval_expr(e, lambda nm: env[nm])))
+            except EvalError: return None
+        if any(ev(v) is None for v in vals): continue
+        if how == 'seq':
+            for v in vals:
+                lines += [f'VAR {k} {x}' for k, x in v.items()] + [f'$STRING {text}']; exp.append('STRING ' + ev(v))
+        elif how == 'func':
+            lines += ['FUNC show', f'    $STRING {text}']
+            for v in vals:
+                lines += [f'VAR {k} {x}' for k, x in v.items()] + ['RUN show']; exp.append('STRING ' + ev(v))
+        else:
+            lines += [f'VAR {k} {x}' for k, x in vals[0].items()] + [f'REPEAT {len(vals)}', f'    $STRING {text}', f'    VAR {k0} {k0}+7']
+            env = dict(vals[0])
+            for _k in range(len(vals)):
+                exp.append('STRING ' + ev(env)); env[k0] += 7
+        cases.append(dict(op='compile', src=dict(text='\n'.join(lines)), meta=dict(family='reeval', form='outs', expout=exp)))
     # division by zero in every position
     for op in ('/', '//', '%'):
         for _ in range(count(tier, 10, 60)):
@@ -168,7 +210,10 @@ def oracle(cases, results):
         if r.get('kind') != 'ok':
             fs.append(fail(i, f'well-typed expression rejected: {r.get("cls", r.get("exc"))} {r.get("msg", "")}', f'expr:rejected:{r.get("cls", r.get("exc"))}')); continue
         form = m['form']
-        if form == 'string':
+        if form == 'outs':
+            if r['out'] != m['expout']:
+                fs.append(fail(i, f're-evaluated expression: expected {m["expout"]} got {r["out"]}', 'expr:reeval'))
+        elif form == 'string':
             got = r['out'][-1] if r['out'] else None
             if got != 'STRING ' + m['val']:
                 fs.append(fail(i, f'value differs: expected {m["val"]!r} ({m["ty"]}) got {got!r}', 'expr:value'))
